@@ -26,6 +26,20 @@ TRUSTED = TRUSTED_COMMON + [
 ]
 
 SPEC_RS = """
+// the SOA record a resolution result carries (negative answers: the zone's SOA)
+pub open spec fn soa_of(r: ResolvedRecord) -> Option<ResourceRecord> {
+    match r {
+        ResolvedRecord::Authoritative { soa_rr, .. } => Some(soa_rr),
+        ResolvedRecord::AuthoritativeNameError { soa_rr } => Some(soa_rr),
+        ResolvedRecord::NonAuthoritative { soa_rr, .. } => soa_rr,
+        _ => None,
+    }
+}
+// Option<&T>::cloned for resource records (derived Clone: a structural copy)
+#[verifier::external_body]
+fn shim_cloned_rr(o: Option<&ResourceRecord>) -> (r: Option<ResourceRecord>)
+    ensures r is Some <==> o is Some, r is Some ==> r->Some_0 == *o->Some_0,
+{ o.cloned() }
 // ---- the validator's output, as the resolver sees it
 pub uninterp spec fn validated(r: NameserverResponse) -> bool;
 pub open spec fn response_rrs(r: NameserverResponse) -> Seq<ResourceRecord> {
@@ -97,7 +111,10 @@ SPECS = {
     "resolve_combined_recursive": {
         "props": ["C10", "C08", "C07"],
         "header_rewrites": [("R32", r"\basync fn\b", "fn")],
-        "rewrites": [("R30", r"\s*\.instrument\(tracing::\w+!\((?:[^()]|\([^()]*\))*\)\)", ""), ("R32", r"\s*\.await\b", "")],
+        "rewrites": [("R30", r"\s*\.instrument\(tracing::\w+!\((?:[^()]|\([^()]*\))*\)\)", ""), ("R32", r"\s*\.await\b", ""),
+                     ("R12v", r"resolved\.soa_rr\(\)\.cloned\(\)", "shim_cloned_rr(resolved.soa_rr())")],
+        "anchors": [{"after": "Ok(resolved) => {", "proof": "let ghost inner__ = resolved;"},
+                    {"after_re": r"Ok\(ResolvedRecord::NonAuthoritative \{ rrs, soa_rr \}\)", "at": "before", "proof": "assert(soa_rr == soa_of(inner__)); // [C07:the_soa_of_a_negative_answer_survives_an_alias_continuation]"}],
         "contract": """    requires old(context).wf(), old(context).r.upstream_dns_port == configured_port(),
     ensures
 """ + COMMON_FRAME + """
@@ -268,7 +285,7 @@ pub struct ExSocketAddr(std::net::SocketAddr);""")
     specs["resolve_local"] = assumed(dict(L.RESOLVE_LOCAL, depub=True))
     G.impl(C, "<'a, CT> Context<'a, CT>", ["metrics", "at_recursion_limit", "is_duplicate_question", "push_question", "pop_question"], "Context::", specs)
     G.top_fn(U, "prioritising_merge", specs)
-    specs["ResolvedRecord::soa_rr"] = {"mode": "assume", "props": [], "contract": ""}
+    specs["ResolvedRecord::soa_rr"] = {"mode": "assume", "props": [], "contract": "    ensures r is Some <==> soa_of(*self) is Some, r is Some ==> *r->Some_0 == soa_of(*self)->Some_0, // read off the four-arm match of ResolvedRecord::soa_rr (`.into()` on Option<T>: not ingested)"}
     G.impl(U, "ResolvedRecord", ["rrs", "soa_rr"], "ResolvedRecord::", specs)
     G.top_fn(Lc, "resolve_local", specs)
     G.item(U, "enum", "ProtocolMode")
@@ -295,6 +312,7 @@ pub struct ExSocketAddr(std::net::SocketAddr);""")
 
 
 CANARIES = [
+    {"name": "soa_dropped_when_the_continuation_holds_records", "file": REC, "old": "            let soa_rr = resolved.soa_rr().cloned();", "new": "            let soa_rr = if resolved.rrs().is_empty() { resolved.soa_rr().cloned() } else { None };"},
     {"name": "slow_candidates_tried_first", "file": REC, "old": "        let mut resolve_candidates_locally = true;\n", "new": "        let mut resolve_candidates_locally = false;\n"},
     {"name": "new_referral_skips_the_local_phase", "file": REC, "old": "                                Vec::with_capacity(candidate_hostnames.len());\n                            resolve_candidates_locally = true;", "new": "                                Vec::with_capacity(candidate_hostnames.len());"},
     {"name": "resolution_budget_ten_minutes", "file": REC, "old": "        Duration::from_mins(1),\n        resolve_recursive_notimeout(context, question),", "new": "        Duration::from_mins(10),\n        resolve_recursive_notimeout(context, question),"},
